@@ -31,7 +31,7 @@ def obs_acq(c):
     out = []
     for o in c.operations:
         if hasattr(o, 'acquisition_index'):
-            out.append([o.qubit_index, o.acquisition_tag, int(o.acquisition_index), int(o.circuit_level_acquisition_index)])
+            out.append([int(o.qubit_index), str(o.acquisition_tag), int(o.acquisition_index), int(o.circuit_level_acquisition_index)])
     return out
 
 
